@@ -177,8 +177,57 @@ fn op_src(op: &str) -> &'static str {
     }
 }
 
+fn cmp_src(op: &str) -> &'static str {
+    match op {
+        "lt" => "<", "le" => "<=", "gt" => ">", "ge" => ">=", "eq" => "==", "ne" => "!=",
+        "in" => "in", "notin" => "not in",
+        _ => panic!("bad comparison {op}"),
+    }
+}
+
+/// a chained comparison `t0 op1 t1 op2 t2 ...`; the right operand of `in` / `not in` is the list
+/// `[t_next, t0]`, which is then the (preserved) left operand of the following link
+fn chain_links(ops: &[&str], t: &[&str]) -> Vec<(String, &'static str, String)> {
+    let mut links = Vec::new();
+    let mut left = t[0].to_string();
+    for (i, op) in ops.iter().enumerate() {
+        let right = if *op == "in" || *op == "notin" { format!("[{}, {}]", t[i + 1], t[0]) } else { t[i + 1].to_string() };
+        links.push((left.clone(), cmp_src(op), right.clone()));
+        left = right;
+    }
+    links
+}
+
 /// expression text of a case for given operand texts
-fn expr_of(op: &str, a: &str, b: &str) -> String {
+fn expr_of(op: &str, t: &[&str]) -> String {
+    let a = t[0];
+    let b = if t.len() > 1 { t[1] } else { "" };
+    if let Some(ops) = op.strip_prefix("chain:") {
+        let ops: Vec<&str> = ops.split(',').collect();
+        let links = chain_links(&ops, t);
+        let mut e = links[0].0.clone();
+        for (_, o, r) in &links {
+            e.push_str(&format!(" {} {}", o, r));
+        }
+        return e;
+    }
+    if let Some(ops) = op.strip_prefix("conj:") {
+        // the conjunction of the links of the chain, each link a two-operand comparison
+        let ops: Vec<&str> = ops.split(',').collect();
+        return chain_links(&ops, t).iter().map(|(l, o, r)| format!("(({}) {} ({}))", l, o, r)).collect::<Vec<_>>().join(" and ");
+    }
+    if let Some(name) = op.strip_prefix("is:") {
+        return format!("{} is {}({})", a, name, b);
+    }
+    if let Some(name) = op.strip_prefix("sel:") {
+        return format!("[{}]|select('{}', {})|list|length", a, name, b);
+    }
+    if let Some(name) = op.strip_prefix("rej:") {
+        return format!("[{}]|reject('{}', {})|list|length", a, name, b);
+    }
+    if let Some(name) = op.strip_prefix("selattr:") {
+        return format!("[{{'v': {}}}]|selectattr('v', '{}', {})|list|length", a, name, b);
+    }
     let tmpl = match op {
         "neg" => "-<A>",
         "f_abs" => "<A>|abs",
@@ -189,6 +238,11 @@ fn expr_of(op: &str, a: &str, b: &str) -> String {
         "f_sum" => "[<A>, <B>]|sum",
         "f_min" => "[<A>, <B>]|min",
         "f_max" => "[<A>, <B>]|max",
+        "f_sortfirst" => "[<A>, <B>]|sort|first",
+        "f_sortlast" => "[<A>, <B>]|sort|last",
+        "f_rsortfirst" => "[<A>, <B>]|sort(reverse=true)|first",
+        "f_uniquelen" => "[<A>, <B>]|unique|list|length",
+        "f_in" => "<A> in [<B>]",
         "f_concat" => "<A> ~ <B>",
         "f_range" => "range(<A>, <B>)|list|join(',')",
         "f_rangelen" => "range(<A>, <B>)|length",
@@ -277,29 +331,30 @@ const N_EMBED: u64 = 11;
 
 /// render the case through another feature / entry point; the printed text must be what
 /// `Expression::eval` displays
-fn run_embedding(envs: &Envs, k: u64, op: &str, a: &Opd, b: &Opd, ctx: &Value) -> Result<String, minijinja::Error> {
-    let expr = expr_of(op, &a.src, &b.src);
-    let unary = b.src.is_empty();
+fn run_embedding(envs: &Envs, k: u64, op: &str, opds: &[Opd], ctx: &Value) -> Result<String, minijinja::Error> {
+    let srcs: Vec<&str> = opds.iter().map(|o| o.src.as_str()).collect();
+    let expr = expr_of(op, &srcs);
+    const PARAMS: [&str; 4] = ["p", "q", "r", "s"];
+    let with_first = |first: &str| -> String {
+        let mut v = srcs.clone();
+        v[0] = first;
+        expr_of(op, &v)
+    };
     match k {
         0 => envs.plain.render_str(&format!("{{% set x = {} %}}{{{{ x }}}}", expr), ctx),
         1 => {
-            let body = expr_of(op, "p", "q");
-            let args = if unary { a.src.clone() } else { format!("{}, {}", a.src, b.src) };
+            let body = expr_of(op, &PARAMS[..srcs.len()]);
             envs.plain.render_str(
-                &format!("{{% macro m(p, q=0) %}}{{{{ {} }}}}{{% endmacro %}}{{{{ m({}) }}}}", body, args),
+                &format!("{{% macro m(p, q=0, r=0, s=0) %}}{{{{ {} }}}}{{% endmacro %}}{{{{ m({}) }}}}", body, srcs.join(", ")),
                 ctx,
             )
         }
         2 => envs.plain.render_str(
-            &format!(
-                "{{% set ns = namespace(x={}) %}}{{% set ns.x = {} %}}{{{{ ns.x }}}}",
-                a.src,
-                expr_of(op, "(ns.x)", &b.src)
-            ),
+            &format!("{{% set ns = namespace(x={}) %}}{{% set ns.x = {} %}}{{{{ ns.x }}}}", srcs[0], with_first("(ns.x)")),
             ctx,
         ),
         3 => envs.plain.render_str(
-            &format!("{{% for v in [{}] %}}{{{{ {} }}}}{{% endfor %}}", a.src, expr_of(op, "v", &b.src)),
+            &format!("{{% for v in [{}] %}}{{{{ {} }}}}{{% endfor %}}", srcs[0], with_first("v")),
             ctx,
         ),
         4 => {
@@ -324,13 +379,12 @@ fn run_embedding(envs: &Envs, k: u64, op: &str, a: &Opd, b: &Opd, ctx: &Value) -
         }
         _ => {
             // `State::call_macro` with the operands as argument values
-            let body = expr_of(op, "p", "q");
-            let msrc = format!("{{% macro m(p, q=0) %}}{{{{ {} }}}}{{% endmacro %}}", body);
+            let body = expr_of(op, &PARAMS[..srcs.len()]);
+            let msrc = format!("{{% macro m(p, q=0, r=0, s=0) %}}{{{{ {} }}}}{{% endmacro %}}", body);
             let t = envs.plain.template_from_str(&msrc)?;
-            let va = envs.plain.compile_expression(&a.src)?.eval(ctx.clone())?;
-            let mut args = vec![va];
-            if !unary {
-                args.push(envs.plain.compile_expression(&b.src)?.eval(ctx.clone())?);
+            let mut args = Vec::new();
+            for sx in &srcs {
+                args.push(envs.plain.compile_expression(sx)?.eval(ctx.clone())?);
             }
             let mut captured = t.render_captured(ctx.clone())?;
             captured.with_state_mut(|state| state.call_macro("m", &args))
@@ -355,10 +409,13 @@ fn run_case(envs: &Envs, fields: &[&str]) -> String {
     if op == "lex" {
         return run_lex(fields[1]);
     }
-    let a = operand(fields[1], "a");
-    let b = if fields.len() > 2 { operand(fields[2], "b") } else { Opd { src: String::new(), rt: String::new(), val: None } };
-    let src = expr_of(op, &a.src, &b.src);
-    let ctx = context! { a => a.val.clone(), b => b.val.clone() };
+    const NAMES: [&str; 4] = ["a", "b", "c", "d"];
+    let opds: Vec<Opd> = fields[1..].iter().enumerate().map(|(i, t)| operand(t, NAMES[i])).collect();
+    let srcs: Vec<&str> = opds.iter().map(|o| o.src.as_str()).collect();
+    let rts: Vec<&str> = opds.iter().map(|o| o.rt.as_str()).collect();
+    let src = expr_of(op, &srcs);
+    let val = |i: usize| opds.get(i).and_then(|o| o.val.clone());
+    let ctx = context! { a => val(0), b => val(1), c => val(2), d => val(3) };
     let eval = |text: &str| -> (String, Option<String>) {
         let r = guarded(|| {
             let expr = env.compile_expression(text)?;
@@ -396,17 +453,30 @@ fn run_case(envs: &Envs, fields: &[&str]) -> String {
         out.push_str(&format!("|render={}", rendered));
     }
     // literal operands: the constant folder must agree with the run-time operator
-    if a.rt != a.src || b.rt != b.src {
-        let (rt_res, _) = eval(&expr_of(op, &a.rt, &b.rt));
+    if rts != srcs {
+        let (rt_res, _) = eval(&expr_of(op, &rts));
         if rt_res != res {
             out.push_str(&format!("|runtime={}", rt_res));
+        }
+    }
+    // a chained comparison is the conjunction of its links (each a two-operand comparison)
+    if let Some(ops) = op.strip_prefix("chain:") {
+        let (conj, _) = eval(&expr_of(&format!("conj:{}", ops), &srcs));
+        if conj != res {
+            out.push_str(&format!("|conj={}", conj));
+        }
+        if rts != srcs {
+            let (conj_rt, _) = eval(&expr_of(&format!("conj:{}", ops), &rts));
+            if conj_rt != res {
+                out.push_str(&format!("|conjrt={}", conj_rt));
+            }
         }
     }
     // a share of the cases also through another feature / entry point
     let h = case_hash(fields);
     if h % 4 == 0 {
         let k = (h / 4) % N_EMBED;
-        let er = guarded(|| run_embedding(envs, k, op, &a, &b, &ctx));
+        let er = guarded(|| run_embedding(envs, k, op, &opds, &ctx));
         let got = match er {
             Ok(Ok(s)) => s,
             Ok(Err(e)) => format!("err:{}", error_kind_name(&e)),
@@ -1194,6 +1264,141 @@ fn generate(tier: &str) -> Vec<String> {
     for t in &strs {
         cases.push(format!("f_strint {}", str_tok(t)));
         cases.push(format!("f_strfloat {}", str_tok(t)));
+    }
+
+    // 11. chained comparisons (`a OP b OP' c`: every non-final link is a different VM instruction,
+    //     all-literal chains are folded by yet another implementation) and the other places the
+    //     comparison operators are implemented: tests, select/reject/selectattr, sort, unique, in
+    let var_tok = |rng: &mut Rng, z: Z| -> String {
+        let fs: Vec<&str> = z.forms().into_iter().filter(|f| *f != "lit").collect();
+        format!("{}:{}", rng.pick(&fs), z.text())
+    };
+    // a token with the same mathematical value: another width, a spelling, or the equal float
+    let twin = |rng: &mut Rng, z: Z, literal: Option<bool>| -> String {
+        let as_float = (z.mag as f64) as u128 == z.mag && (z.mag as f64) < 3.0e38;
+        let f = if z.neg { -(z.mag as f64) } else { z.mag as f64 };
+        let want_float = as_float && rng.chance(1, 3);
+        match literal {
+            Some(true) => {
+                if want_float { format!("flit:{:016x}", f.to_bits()) } else if rng.chance(1, 2) { spell_int(rng, z, false) } else { format!("lit:{}", z.text()) }
+            }
+            Some(false) => {
+                if want_float { format!("f64:{:016x}", f.to_bits()) } else { var_tok(rng, z) }
+            }
+            None => {
+                if want_float { float_tok(rng, f) } else { int_tok(rng, z, None) }
+            }
+        }
+    };
+    let bases: Vec<Z> = vec![
+        Z::pos(0), Z::pos(1), Z::new(true, 1), Z::pos(3), Z::pos(1 << 53), Z::pos((1 << 53) + 1), Z::pos(1 << 63), Z::new(true, 1 << 63),
+        Z::pos(u64::MAX as u128), Z::pos(1 << 64), Z::pos(P127 - 1), Z::pos(u128::MAX),
+    ];
+    for (i, x) in bases.iter().enumerate() {
+        let y = bases[(i + 1) % bases.len()];
+        let z = bases[(i + 5) % bases.len()];
+        for (p, q, w) in [(*x, *x, *x), (*x, *x, y), (*x, y, y), (*x, y, *x), (*x, y, z)] {
+            for o1 in CMP {
+                for o2 in CMP {
+                    for lit in [Some(false), Some(true), None] {
+                        let (tp, tq, tw) = (twin(&mut rng, p, lit), twin(&mut rng, q, lit), twin(&mut rng, w, lit));
+                        cases.push(format!("chain:{},{} {} {} {}", o1, o2, tp, tq, tw));
+                    }
+                }
+            }
+            // length 4: the middle links are both "preserving" instructions
+            for _ in 0..6 {
+                let (o1, o2, o3) = (*rng.pick(&CMP), *rng.pick(&CMP), *rng.pick(&CMP));
+                let v = *rng.pick(&bases);
+                let (tp, tq, tw, tv) = (twin(&mut rng, p, None), twin(&mut rng, q, None), twin(&mut rng, w, None), twin(&mut rng, v, None));
+                cases.push(format!("chain:{},{},{} {} {} {} {}", o1, o2, o3, tp, tq, tw, tv));
+            }
+        }
+    }
+    //     every comparison case generated above, as the first / middle link of a longer chain
+    let n_before = cases.len();
+    for i in 0..n_before {
+        let f: Vec<String> = cases[i].split(' ').map(|x| x.to_string()).collect();
+        if f.len() != 3 || !CMP.contains(&f[0].as_str()) || f[1].starts_with("bool:") || f[2].starts_with("bool:") {
+            continue;
+        }
+        let extra = |rng: &mut Rng, near: &str| -> String {
+            // an operand equal to a neighbour (so that `>=`/`<=`/`==` links are decided by equality), or any
+            if rng.chance(1, 3) {
+                near.to_string()
+            } else if rng.chance(1, 2) {
+                let z = *rng.pick(&zi);
+                int_tok(rng, z, None)
+            } else {
+                let g = *rng.pick(&zf);
+                float_tok(rng, g)
+            }
+        };
+        match rng.below(if thorough { 4 } else { 8 }) {
+            0 => {
+                let c = extra(&mut rng, &f[2]);
+                cases.push(format!("chain:{},{} {} {} {}", f[0], rng.pick(&CMP), f[1], f[2], c));
+            }
+            1 => {
+                let c = extra(&mut rng, &f[1]);
+                cases.push(format!("chain:{},{} {} {} {}", rng.pick(&CMP), f[0], c, f[1], f[2]));
+            }
+            2 => {
+                let c = extra(&mut rng, &f[1]);
+                let d = extra(&mut rng, &f[2]);
+                cases.push(format!("chain:{},{},{} {} {} {} {}", rng.pick(&CMP), f[0], rng.pick(&CMP), c, f[1], f[2], d));
+            }
+            _ => {}
+        }
+    }
+    //     `in` / `not in` as a link (the preserved operand is then a list)
+    for _ in 0..(if thorough { 6000 } else { 600 }) {
+        let z = *rng.pick(&bases);
+        let w = if rng.chance(1, 2) { z } else { *rng.pick(&bases) };
+        let third = *rng.pick(&bases);
+        let (ta, tb, tc) = (twin(&mut rng, z, None), twin(&mut rng, w, None), twin(&mut rng, third, None));
+        let inop = *rng.pick(&["in", "notin"]);
+        let o = *rng.pick(&CMP);
+        if rng.chance(1, 2) {
+            cases.push(format!("chain:{},{} {} {} {}", inop, o, ta, tb, tc));
+        } else {
+            cases.push(format!("chain:{},{} {} {} {}", o, inop, ta, tb, tc));
+        }
+    }
+    //     tests, select / reject / selectattr, sort, unique, in  on the same operands
+    const TEST_IDENTS: [&str; 9] = ["eq", "equalto", "ne", "lt", "lessthan", "le", "gt", "greaterthan", "ge"];
+    const TEST_NAMES: [&str; 15] = ["eq", "equalto", "==", "ne", "!=", "lt", "lessthan", "<", "le", "<=", "gt", "greaterthan", ">", "ge", ">="];
+    for _ in 0..(if thorough { 40000 } else { 4000 }) {
+        let z = if rng.chance(1, 2) { *rng.pick(&bases) } else if rng.chance(1, 2) { *rng.pick(&zi) } else { rand_int(&mut rng) };
+        let ta = twin(&mut rng, z, None);
+        let tb = match rng.below(4) {
+            0 => twin(&mut rng, z, None),
+            1 => {
+                let m = z.mag as f64;
+                let g = f64::from_bits(m.to_bits().wrapping_add(rng.below(3)).wrapping_sub(1));
+                let g = if z.neg { -g } else { g };
+                if g.is_finite() { float_tok(&mut rng, g) } else { twin(&mut rng, z, None) }
+            }
+            2 => {
+                let w = *rng.pick(&zi);
+                int_tok(&mut rng, w, None)
+            }
+            _ => {
+                let g = if rng.chance(1, 2) { *rng.pick(&zf) } else { rand_float(&mut rng) };
+                float_tok(&mut rng, g)
+            }
+        };
+        let (ta, tb) = if rng.chance(1, 2) { (ta, tb) } else { (tb, ta) };
+        match rng.below(8) {
+            0 => cases.push(format!("is:{} {} {}", rng.pick(&TEST_IDENTS), ta, tb)),
+            1 => cases.push(format!("sel:{} {} {}", rng.pick(&TEST_NAMES), ta, tb)),
+            2 => cases.push(format!("rej:{} {} {}", rng.pick(&TEST_NAMES), ta, tb)),
+            3 => cases.push(format!("selattr:{} {} {}", rng.pick(&TEST_NAMES), ta, tb)),
+            4 => cases.push(format!("{} {} {}", rng.pick(&["f_sortfirst", "f_sortlast", "f_rsortfirst"]), ta, tb)),
+            5 => cases.push(format!("f_uniquelen {} {}", ta, tb)),
+            6 => cases.push(format!("f_in {} {}", ta, tb)),
+            _ => cases.push(format!("{} {} {}", rng.pick(&["f_min", "f_max"]), ta, tb)),
+        }
     }
 
     // distinct, generation order kept
